@@ -177,6 +177,19 @@ func (e *Engine) smtText(hyps []*Term, goal *Term, produceModel bool) string {
 	for _, name := range sortedKeys(fv) {
 		fmt.Fprintf(&body, "(declare-fun %s () %s)\n", name, fv[name])
 	}
+	// package-level metric/logger objects are pairwise distinct (separate constructor calls)
+	{
+		var present []string
+		for _, n := range e.globalRefs {
+			if _, ok := fv[n]; ok {
+				present = append(present, n)
+			}
+		}
+		if len(present) >= 2 {
+			sort.Strings(present)
+			fmt.Fprintf(&body, "(assert (distinct %s))\n", strings.Join(present, " "))
+		}
+	}
 	for _, name := range sortedKeys(fv) {
 		srt := fv[name]
 		switch {
@@ -252,7 +265,7 @@ func (e *Engine) smtText(hyps []*Term, goal *Term, produceModel bool) string {
 	// uninterpreted helper families
 	declared := map[string]bool{}
 	for _, fam := range []struct{ prefix, sig string }{
-		{"tq_bitop_", "(Int Int) Int"}, {"tq_strcmp_", "(tq_Str tq_Str) Bool"}, {"tq_uf_int_", ""},
+		{"tq_bitop_", "(Int Int) Int"}, {"tq_strcmp_", "(tq_Str tq_Str) Bool"}, {"tq_uf_bool_", "(Int) Bool"}, {"tq_uf_int_", "(Int) Int"}, {"tq_uf_ref_", "(Int) tq_Ref"}, {"tq_uf_arr_", "(Int) (Array Int Int)"},
 	} {
 		idx := 0
 		for {
